@@ -501,7 +501,7 @@ def gen_family(rng, force=(), forbid=(), n_masters=None, max_glyphs=14):
             lib[UFO2FT + "colorLayerMapping"] = mapping
         else:
             glyphs[cname]["lib"][UFO2FT + "colorLayerMapping"] = mapping
-        if comps and rng.random() < 0.5:
+        if comps and comps[0][0] in glyphs and rng.random() < 0.5:
             # colour layer glyph made of a component (exercises component renaming)
             lg3 = _empty_glyph(glyphs[cname]["width"])
             lg3["components"].append([cname, [1, 0, 0, 1, 10, 0]])
